@@ -349,6 +349,10 @@ def c15_corpus():
     """Programs compiled by the C15 check: the four drivers plus a fixed, sorted sample of the
     repository's runtime tests (only files whose reference compile succeeds are kept)."""
     files = [os.path.join(VERIF, "workloads", n + ".dora") for n in ("kitchen", "heapgraph", "sync", "trapio", "exhaust")]
+    # a program with four external packages given on the command line (--package NAME PATH):
+    # package, module and function numbering must not depend on hash order
+    mp = os.path.join(VERIF, "workloads", "multipkg")
+    files.insert(1, (os.path.join(mp, "main.dora"), sum([["--package", "p" + n, os.path.join(mp, "p%s.dora" % n)] for n in "abcd"], [])))
     rt = []
     for root, _, names in os.walk(os.path.join(REPO, "test", "rt")):
         for n in names:
@@ -361,7 +365,7 @@ def c15_corpus():
     return files
 
 
-def c15_build(dora, boots, src, kind, cg, gc, pert, outdir):
+def c15_build(dora, boots, src, kind, cg, gc, pert, outdir, extra=()):
     """One pipeline run under an environment perturbation. Returns (rc, {artifact: sha}, stderr)."""
     os.makedirs(outdir, exist_ok=True)
     env = {"PATH": os.environ.get("PATH", "/usr/bin:/bin"), "HOME": pert["home"], "LANG": pert["lang"], "TMPDIR": pert["tmpdir"],
@@ -374,7 +378,7 @@ def c15_build(dora, boots, src, kind, cg, gc, pert, outdir):
         with open(os.path.join(outdir, n), "w") as f:
             f.write("neighbour\n")
     out = os.path.join(outdir, pert.get("outname", "artifact"))
-    cmd = [dora, "compile", src, "--gc=" + gc]
+    cmd = [dora, "compile", src, "--gc=" + gc] + list(extra)
     cmd += ["--cannon"] if cg == "cannon" else ["--compiler", boots]
     if kind == "package":
         out += ".dora-package"
@@ -431,6 +435,9 @@ def c15(tier, replay_index=None):
     def task(i):
         rng = tb.stream(s, "C15", i, "config")
         src = corpus[(i // 2) % len(corpus)] if i < 2 * len(corpus) else corpus[i % len(corpus)]
+        extra = ()
+        if isinstance(src, tuple):
+            src, extra = src
         kind = rng.choices(["package", "asm", "exe"], [2, 5, 2])[0]
         cg = rng.choice(["cannon", "boots"])
         if i < 2 * len(corpus):
@@ -454,7 +461,7 @@ def c15(tier, replay_index=None):
 
         def one(k):
             outdir = os.path.join(perts[0]["dir"], "out") if same_dir else os.path.join(perts[k]["dir"], "out")
-            results[k] = c15_build(dora, boots, src, kind, cg, gc, perts[k], outdir)
+            results[k] = c15_build(dora, boots, src, kind, cg, gc, perts[k], outdir, extra)
 
         if sibling:
             ths = [threading.Thread(target=one, args=(k,)) for k in range(nbuilds)]
@@ -467,7 +474,7 @@ def c15(tier, replay_index=None):
                 one(k)
         for pt in perts:
             shutil.rmtree(pt["dir"], ignore_errors=True)
-        return {"index": i, "src": src, "kind": kind, "cg": cg, "gc": gc, "sibling": sibling, "perts": perts, "results": results}
+        return {"index": i, "src": src, "extra_args": list(extra), "kind": kind, "cg": cg, "gc": gc, "sibling": sibling, "perts": perts, "results": results}
 
     def classify(r, res=None):
         rs = r["results"]
